@@ -101,6 +101,10 @@ func cmdWTrace(args []string) int {
 				nm = fmt.Sprintf("unknown-%d", k)
 			}
 			emit(map[string]any{"e": "cmd", "kind": nm, "nbuf": kv[1], "nshadow": kv[2], "mode": kv[3]})
+		case "capture.kv":
+			// the KV capture of a compaction (DB.IterateKV, under the KV store lock)
+			emit(map[string]any{"e": "capture.kv"})
+			jitter()
 		case "snap.begin", "snap.tmp_written", "snap.renamed", "snap.truncated", "snap.ended", "snap.reappended",
 			"rw.begin", "rw.captured", "rw.tmp_written", "rw.replaced", "rw.ended", "rw.reappended":
 			emit(map[string]any{"e": name})
